@@ -103,6 +103,9 @@ func main() {
 			}
 		}
 	}
+	// deterministic streams: restarted registers with stale raw content; Pow with a magic exponent (streams.go)
+	staleStream(emit)
+	powStream(emit)
 	rng := NewRng(o.Seed)
 	for k := 0; k < o.N; k++ {
 		genProgram(rng.Split(), w, emit)
